@@ -18,7 +18,7 @@ CHECKS = {
             "dominance + who-may-call/write tables + ALL-EXITS path counting on a step-level CFG with exception and cancellation edges", "5 C01",
             TB + "Declined: the arithmetic bound and the idle-time equality is_full <=> running == size (follow from the discipline)."),
     "C02": ("HANDOFF rule (slot acquired by creator, released only in the new task's body: finding F1), life-cycle typestate over CFG x (registry, slot) on all edge kinds: every "
-            "exit of the wrapper has slot=free, registry=ended; wrapper armed before any suspension; SNAPSHOT-FORGET on flush; registry who-may-write table; PUBLISHED-BEFORE-FIRST-STEP (the task is filed after create_task returned: finding F10 under an eager task factory).",
+            "exit of the wrapper has slot=free, registry=ended; wrapper armed before any suspension; SNAPSHOT-FORGET on flush; registry who-may-write table; PUBLISHED-BEFORE-FIRST-STEP (the task is filed after create_task returned: finding F10 under an eager task factory); FORGET-ONLY-GATHERED shared.",
             "typestate abstract interpretation over CFG x finite state with callee summaries; HANDOFF and SNAPSHOT-FORGET rules", "5 C02",
             TB + "Declined: 'eventually' (liveness) and end-of-run capacity counts. F1 and F10 are recorded known findings."),
     "C03": ("Life-cycle typestate with callback roles: at every suspension/user step the id is in exactly one registry; cancel callback begun exactly once iff the coroutine left by "
@@ -75,7 +75,7 @@ CHECKS = {
             "effect analysis (who writes the paths the getter reads) + VALIDATE-FIRST", "5 C15", TB + "F5a-c are recorded known findings; mixed arithmetic is inconclusive, not a violation."),
     "C16": ("Handshake sequence by completion-dominance (read, json, parser with the session's buffer and the client's width, add_subparsers, add_class_commands(run-time class), "
             "name + newline, drain); command surface (getmembers, '_' filter with public_only default True, function/property dispatch, dash names, member stored under CMD, help enabled); "
-            "EXECUTABLE (a required argument is filed under the parameter name the session looks up); PARSER-CONFIG; TOTAL-INDEXING on the command-building path; TABLE(annotation kinds at run time vs what the converter does with them) over every public member of every pool class: finding F6; an annotation is looked at by identity only (never hashed or compared by value); OMIT-SELF; default help / description texts.",
+            "EXECUTABLE (a required argument is filed under the parameter name the session looks up); PARSER-CONFIG; TOTAL-INDEXING on the command-building path; TABLE(annotation kinds at run time vs what the converter does with them) over every public member of every pool class: finding F6; an annotation is looked at by identity only (never hashed or compared by value); OMIT-SELF; default help / description texts; TOKENS (the word typed is the word looked up); no parsing method of ArgumentParser overridden.",
             "dominance on the CFG + producer/consumer table agreement (annotation kind vs converter domain)", "5 C16",
             TB + "Declined: the bytes on the wire; help text for every width (argparse run-time behaviour). F6 is a recorded known finding."),
     "C17": ("Dispatch structure of _exec_method_and_respond (self, positional kinds in signature order, *args after, rest by keyword, through return_or_exception), RESULT-USED at all "
@@ -90,7 +90,7 @@ CHECKS = {
             TB + "Declined: one reply 'when the wait is over'; output of concurrent sessions (follows from per-instance state)."),
     "C19": ("serve_forever awaits only the start-up and returns the serving task; _serve_forever runs _final_callback exactly once on every way out once serving began and absorbs "
             "cancellation; the unix callback unlinks the path that was listened on; ALL-EXITS(_client_connected_cb => writer.close) over normal/exception/cancellation edges; listen "
-            "re-tests is_serving and leaves on EOF; NO-SPIN-AT-EOF (no stream read is repeated on an empty result without a real suspension in between); SESSION-IS-LOCAL; WHO(write of the server attribute) = constructor and serve_forever; no shared lock held across an await; client closes and clears its flag on exit/EOF.",
+            "re-tests is_serving and leaves on EOF; NO-SPIN-AT-EOF (no stream read is repeated on an empty result without a real suspension in between); SESSION-IS-LOCAL; WHO(write of the server attribute) = constructor and serve_forever; no shared lock held across an await; containment shared (no line can end a session); client closes and clears its flag on exit/EOF.",
             "ALL-EXITS path counting over all edge kinds + data-flow equality of paths", "5 C19",
             TB + "Declined: everything observable only on real sockets (promptness, refusal of new connections, other sessions unaffected)."),
     "C20": ("__aenter__ takes exactly one item and reaches no task_done on any edge (in particular the cancellation edge of the waiting get); __aexit__ reaches task_done exactly once "
